@@ -210,6 +210,16 @@ func setCase(hseed uint64) {
 		}
 	}
 	tokenOf := func(c call, i int) string { return fmt.Sprintf("tok|%s|%s|%d", c.host, c.key, i) }
+	// tight: all calls start together and fetch without delay, so that the
+	// follow-up Set of the single-context cache (key "") of different calls overlap
+	tight := r.Chance(1, 2)
+	if tight {
+		for i := range calls {
+			calls[i].key = fmt.Sprintf("repository:r%d:pull", i%3)
+			calls[i].host = h0
+		}
+	}
+	start := make(chan struct{})
 	var wg sync.WaitGroup
 	var mu sync.Mutex
 	var fails []violation
@@ -218,12 +228,17 @@ func setCase(hseed uint64) {
 		wg.Add(1)
 		go func(i int, c call) {
 			defer wg.Done()
-			jitter(c.j)
+			<-start
+			if !tight {
+				jitter(c.j)
+			}
 			tok, err := cache.Set(context.Background(), c.host, c.scheme, c.key, func(context.Context) (string, error) {
 				mu.Lock()
 				fetched++
 				mu.Unlock()
-				jitter(c.j >> 7)
+				if !tight {
+					jitter(c.j >> 7)
+				}
 				if c.fail {
 					return "", errors.New("fetch failed")
 				}
@@ -232,17 +247,27 @@ func setCase(hseed uint64) {
 			if err != nil {
 				return
 			}
+			// Set returns what its own fetch returned, or the result of a concurrent
+			// Set for the SAME host, scheme and key (also for the single-context cache:
+			// only its GetToken ignores the key)
 			want := fmt.Sprintf("tok|%s|%s|", c.host, c.key)
-			if flavour == "single" {
-				want = fmt.Sprintf("tok|%s|", c.host)
-			}
 			if !strings.HasPrefix(tok, want) {
+				sig := "set-cross-key"
+				if flavour == "single" && c.key == "" && strings.HasPrefix(tok, fmt.Sprintf("tok|%s|", c.host)) {
+					// known finding: the single-context cache keeps its host-only copy
+					// (key "") in the same concurrentCache as the scoped tokens, so a Set
+					// with the EMPTY key shares the in-flight entry (host, scheme, "") with
+					// the host-only follow-up Set of a concurrent call and receives that
+					// call's token (same host, other scopes)
+					sig = "single-cache-empty-key-coalesced"
+				}
 				mu.Lock()
-				fails = append(fails, violation{"set-cross-key", fmt.Sprintf("Set(%q, Bearer, %q) returned %q, a token fetched for another host or scope set", c.host, c.key, tok)})
+				fails = append(fails, violation{sig, fmt.Sprintf("%s cache: Set(%q, Bearer, %q) returned %q, a token fetched for another host or scope set", flavour, c.host, c.key, tok)})
 				mu.Unlock()
 			}
 		}(i, c)
 	}
+	close(start)
 	if !waitTimeout(&wg, 20*time.Second) {
 		run.OracleFail(id, "set-hang", "concurrentCache.Set did not return within 20s", rep)
 		return
